@@ -17,6 +17,10 @@ Static clauses decided (necessary conditions of C15):
  ATOMIC  a refused delete changes nothing: all clauses of the undo protocol (C13) hold for Entity._delete_ (closure
          registered before the first failure point, nested-call flag is the None-ness of the list, every mutation covered,
          reverse replay).
+ LOAD    the cascade ranges over the COMPLETE collection, not over the items that happen to be cached: the loop of
+         Entity._delete_ that deletes the dependents of a Set attribute iterates the SetInstance wrapper obtained from
+         attr.__get__(obj) (iteration loads the collection) and never the raw cached SetData (obj._vals_[attr]); dependents
+         that were not loaded yet would otherwise be skipped together with their own refuse/cascade rules.
  BULK    Query.delete(bulk=False) deletes through obj._delete_() (cascade rules apply); the bulk branch is an explicit
          opt-in parameter defaulting to None/False.
 """
@@ -135,6 +139,21 @@ def run(ctx):
     ok = bool(hs) and all(norm(s.iter) == 'reversed(undo_funcs)' for s in hs)
     ctx.ob('C15-ATOMIC.refused-delete-replays-undo-in-reverse', d, hs[0] if hs else d.node, ok, '' if ok else 'the refusal handler of _delete_ does not replay reversed(undo_funcs)')
 
+    # ---------------------------------------------------------------- LOAD
+    nl = 0
+    for lp in [x for x in walk_no_nested(d.node) if isinstance(x, ast.For) and isinstance(x.target, ast.Name)]:
+        tv = lp.target.id
+        if not any(isinstance(c.func, ast.Attribute) and c.func.attr == '_delete_' and dotted(c.func.value) == tv for b in lp.body for c in calls_in(b)): continue
+        nl += 1
+        it = lp.iter; src = norm(it)
+        defs = []
+        if isinstance(it, ast.Name):
+            defs = [norm(a.value) for a in walk_no_nested(d.node) if isinstance(a, ast.Assign) and any(dotted(t) == it.id for t in a.targets)]
+        ok = '_vals_' not in src and 'setdata' not in src.lower() and bool(defs) and all(('.__get__(' in v or '.load(' in v or '.copy(' in v) and '_vals_' not in v for v in defs)
+        ctx.ob('C15-LOAD.cascade-iterates-the-loaded-collection', d, lp.iter, ok,
+               '' if ok else 'the cascade loop iterates `%s`%s: only the dependents already cached in the session are deleted (and checked against their own '
+               'rules); rows not loaded yet are skipped' % (src, (' = ' + ' / '.join(defs)) if defs else ''), node=lp, expected='iterate attr.__get__(obj) (loads the collection)')
+    ctx.floor('C15-LOAD', nl, 1, 'cascade loops over collections')
     # ---------------------------------------------------------------- BULK
     qd = repo.fn(CORE, 'Query.delete')
     g = cg.cfg(qd)
@@ -153,6 +172,7 @@ def run(ctx):
 
 
 MUTANTS = [
+    dict(id='C15-l1', file='pony/orm/core.py', fn='Entity._delete_', old="for robj in set_wrapper: robj._delete_(undo_funcs)", new="for robj in list(obj._vals_[attr]): robj._delete_(undo_funcs)", expect='C15-LOAD'),
     dict(id='C15-m1', file='pony/orm/core.py', fn='Entity._delete_', old="                        elif not attr.reverse.is_required: attr.__set__(obj, (), undo_funcs)", new="                        elif attr.reverse.is_required: attr.__set__(obj, (), undo_funcs)", expect='C15-TABLE'),
     dict(id='C15-m2', file='pony/orm/core.py', fn='Entity._delete_', old="                            elif not reverse.is_required: reverse.__set__(val, None, undo_funcs)\n                            else: throw(ConstraintError,",
          new="                            elif not reverse.is_required: reverse.__set__(val, None, undo_funcs)\n                            elif False: throw(ConstraintError,", expect='C15-TABLE'),
